@@ -61,7 +61,11 @@ TRUSTED = [
     "encryption of an upgraded connection is C04/C05's concern and not applied); in the model one exchange is one step and "
     "cryptography is ideal (outer layer opens iff sealed with the exchange key; a proof verifies under K iff made with "
     "K's private key over the exchange material) -- the cryptographic fact behind C02, taken as the shape of the attempt; "
-    "driver.async_persist replaced by a synchronous driver.persist",
+    "driver.async_persist replaced by a synchronous call of the real driver.persist whose exceptions are swallowed as the "
+    "executor task would (scheduling / coalescing of saves is C15's concern); 'a save happened' is observed on disk (the file "
+    "was replaced); fault = the state file's directory does not exist while one request is handled; start states and restarts: "
+    "harness-authored state files in the historical format resp. the file the implementation wrote, loaded by the real driver "
+    "(what a save + load preserves is C14's statement: the model is compared piecewise from the observed loaded state)",
 ]
 
 _LOOP = None
@@ -112,8 +116,15 @@ class Real:
         real = self
 
         def sync_persist():
+            # the real async_persist hands driver.persist to an executor: an exception raised there is
+            # logged by the background task and never reaches the request being handled
             real.persist_calls += 1
-            real.driver.persist()
+            try:
+                real.driver.persist()
+            except Exception as ex:  # noqa: BLE001
+                real.persist_errors.append(type(ex).__name__)
+
+        self.persist_errors: List[str] = []
 
         self.driver.async_persist = sync_persist
         self.state = self.driver.state
@@ -130,6 +141,28 @@ class Real:
             os.remove(self.path)
         except OSError:
             pass
+
+    def file_sig(self):
+        """Identity of the state file on disk (a save replaces it): what 'a save happened' is observed by."""
+        try:
+            st = os.stat(self.path)
+            return (st.st_ino, st.st_mtime_ns, st.st_size)
+        except OSError:
+            return None
+
+    def fault(self):
+        """Context manager: while active every write of the state file raises OSError (its directory does not exist)."""
+        real = self
+
+        class _Fault:
+            def __enter__(self):
+                self.saved = real.driver.persist_file
+                real.driver.persist_file = os.path.join(_tmpdir(), "no-such-dir", os.path.basename(real.path))
+
+            def __exit__(self, *a):
+                real.driver.persist_file = self.saved
+
+        return _Fault()
 
     def ident(self) -> Dict[str, Any]:
         from cryptography.hazmat.primitives import serialization as ser
@@ -154,8 +187,11 @@ class Real:
     def file_doc(self) -> Optional[Dict[str, Any]]:
         if not os.path.exists(self.path):
             return None
-        with open(self.path, "r", encoding="utf8") as fh:
-            return canon_doc(json.load(fh, object_pairs_hook=list))
+        try:  # the file is the implementation's: whatever is in it is an observation, never a harness error
+            with open(self.path, "r", encoding="utf8") as fh:
+                return canon_doc(json.load(fh, object_pairs_hook=list))
+        except Exception as ex:  # noqa: BLE001
+            return {"unreadable": f"{type(ex).__name__}: {ex}"[:200]}
 
     def connection(self):
         """One connection: returns post(path, body) -> (status, body) bound to one fresh handler,
@@ -252,34 +288,95 @@ class Verdict:
             self.sig, self.desc, self.at = sig, desc, at
 
 
-def run_real(ops: List[Dict[str, Any]], judge: bool = True):
-    """Run one history on the real code. Returns (ident, steps, verdict, abstained)."""
-    real = Real()
+class _NoFault:
+    def __enter__(self):
+        return self
+
+    def __exit__(self, *a):
+        return False
+
+
+def start_known(start) -> List[List[Any]]:
+    """[(uuid int, id bytes | None, key bytes, permission)] a loaded start document holds, from the harness's
+    own knowledge of what it authored (no permissions stored -> 1; no identifier bytes stored -> None)."""
+    st, absent = start["state"], start["absent"]
+    props = {u: p for u, p in st["props"]}
+    u2b = {u: b for u, b in st["u2b"]}
+    return [[int(u), None if "client_uuid_to_bytes" in absent or u not in u2b else bytes.fromhex(u2b[u]), bytes.fromhex(k),
+             1 if "client_properties" in absent else props[u]] for u, k in st["paired"]]
+
+
+def run_real(ops: List[Dict[str, Any]], judge: bool = True, start: Optional[Dict[str, Any]] = None):
+    """Run one history on the real code. `start`: the history begins with a restart from a state file that
+    the harness authored in the historical format (state description + absent members), loaded by the real
+    driver. Returns (ident, steps, verdict, abstained, init snapshot | None)."""
+    init = None
+    ref: Optional[refp.RefPairings] = refp.RefPairings()
+    if start is None:
+        real = Real()
+    else:
+        from props import c14 as _c14  # authored documents live with the C14 harness
+
+        holder = os.path.join(_tmpdir(), f"start-{os.getpid()}-{Real._n}.state")
+        with open(holder, "w", encoding="utf8") as fh:
+            json.dump(_c14.doc_to_json(_c14.author_doc(start["state"], start["absent"])), fh)
+        try:
+            real = Real(state_file_from=holder)
+            real.driver.load()
+        finally:
+            os.remove(holder)
+        init = real.snapshot()
+        for u, idb, key, perm in start_known(start):
+            ref.registered(u, idb, key, perm)
+        if pairing_set(init) != ref.pairing_set():
+            ref = None  # what a load gives is C14's business; this history is then only compared with the model
     try:
         ident = real.ident()
         steps = []
-        ref: Optional[refp.RefPairings] = refp.RefPairings()
         v = Verdict()
         for i, op in enumerate(ops):
-            before = real.snapshot()
-            calls0 = real.persist_calls
-            if op["k"] == "setup":
+            if op["k"] == "restart":
+                # a fresh driver + State loads the file the implementation itself wrote (opaque to the harness)
+                if real.file_sig() is None:
+                    steps.append({"restart": "no state file yet", "state": real.snapshot(), "ident": real.ident()})
+                    continue
                 try:
-                    real.driver.pair(bytes.fromhex(op["id"]), bytes.fromhex(op["key"]), b"\x01")
-                    code, body, pc = 200, b"", False
-                except Exception:  # noqa: BLE001  (dispatch would answer 500)
-                    code, body, pc = 500, b"", False
-                resp = {"code": code}
-            else:
-                cu = int(op["cu"]) if op["cu"] is not None else None
-                code, body, pc = real.request(op["enc"], cu, bytes.fromhex(op["body"]))
-                resp = {"code": 200, "body": hx(body), "pc": pc} if code == 200 else {"code": code}
+                    nxt = Real(state_file_from=real.path)
+                    nxt.driver.load()
+                except Exception as ex:  # noqa: BLE001  (saving/loading is C14's business: stop here)
+                    steps.append({"restart": "load failed: " + type(ex).__name__})
+                    ref = None
+                    break
+                real.close()
+                real = nxt
+                after = real.snapshot()
+                steps.append({"restart": "loaded", "state": after, "ident": real.ident()})
+                if ref is not None and pairing_set(after) != ref.pairing_set():
+                    ref = None  # what a save + load preserves is C14's statement; only the model comparison goes on
+                continue
+            before = real.snapshot()
+            sig0 = real.file_sig()
+            with (real.fault() if op.get("fault") else _NoFault()):
+                if op["k"] == "setup":
+                    try:
+                        real.driver.pair(bytes.fromhex(op["id"]), bytes.fromhex(op["key"]), b"\x01")
+                        code, body, pc = 200, b"", False
+                    except Exception:  # noqa: BLE001  (dispatch would answer 500)
+                        code, body, pc = 500, b"", False
+                    resp = {"code": code}
+                else:
+                    cu = int(op["cu"]) if op["cu"] is not None else None
+                    code, body, pc = real.request(op["enc"], cu, bytes.fromhex(op["body"]))
+                    resp = {"code": 200, "body": hx(body), "pc": pc} if code == 200 else {"code": code}
             after = real.snapshot()
-            wrote = real.persist_calls > calls0
-            steps.append({"resp": resp, "state": after, "wrote": wrote, "doc": real.file_doc() if wrote else None})
+            wrote = real.file_sig() != sig0  # observed on disk, however the implementation got there
+            step = {"resp": resp, "state": after, "wrote": wrote, "doc": real.file_doc() if wrote else None}
+            if op.get("fault"):  # whether / what got written while the disk fails is C15's concern
+                step.pop("wrote"), step.pop("doc")
+            steps.append(step)
             if judge and ref is not None and v.sig is None:
                 ref = judge_step(v, ref, i, op, before, after, code, body)
-        return ident, steps, v, ref is None
+        return ident, steps, v, ref is None, init
     finally:
         real.close()
 
@@ -318,7 +415,7 @@ def judge_step(v: Verdict, ref: refp.RefPairings, i, op, before, after, code, bo
         if pa != pb:
             v.fail(
                 "C06:error-answer-changed-pairings",
-                f"request type {kind} answered with an error (HTTP {code}) but the set of pairings changed: "
+                f"request type {kind}{' (while the state file could not be written)' if op.get('fault') else ''} answered with an error (HTTP {code}{' + TLV error item' if code == 200 else ''}) but the set of pairings changed: "
                 f"{len(pb)} -> {len(pa)} entries, maps paired/props keys {len(after['paired'])}/{len(after['props'])}",
                 i,
             )
@@ -343,7 +440,7 @@ def judge_step(v: Verdict, ref: refp.RefPairings, i, op, before, after, code, bo
         except ValueError as ex:
             v.fail("C06:list-not-exact", f"list-pairings answer is not a well-formed pairing list: {ex}", i)
             return ref
-        if sorted(got) != sorted(ref.listing()):
+        if not ref.listing_matches(got, parse_id):
             v.fail(
                 "C06:list-not-exact",
                 f"list-pairings returned {len(got)} entries that are not exactly the {len(ref.entries)} current "
@@ -359,7 +456,8 @@ def judge_step(v: Verdict, ref: refp.RefPairings, i, op, before, after, code, bo
         else:
             v.fail(
                 "C06:pairings-differ-from-history",
-                f"after a successful request of type {kind} the State maps hold {len(pa)} pairings, the answers imply {len(ref.entries)}",
+                f"after a successful request of type {kind} the State maps hold {len(pa)} pairings ({sum(1 for x in pa if x[2])} admin), "
+                f"the answers imply {len(ref.entries)} ({sum(1 for x in ref.pairing_set() if x[2])} admin)",
                 i,
             )
     return ref
@@ -370,9 +468,12 @@ def judge_step(v: Verdict, ref: refp.RefPairings, i, op, before, after, code, bo
 EDGE_UUIDS = [0, 1, (1 << 128) - 1, 0x0123456789ABCDEF0123456789ABCDEF, 0xA << 124, 0xFFFFFFFF << 96]
 
 
+N_SPELL = 10  # every family uuid.UUID() accepts: dashed lower/upper/mixed, bare 32 hex digits lower/upper/mixed, braced, urn:uuid:
+
+
 def spell(rng, u: int, how: Optional[int] = None) -> bytes:
     s = str(uuidlib.UUID(int=u))
-    how = rng.randrange(8) if how is None else how
+    how = rng.randrange(N_SPELL) if how is None else how
     if how == 0:
         r = s
     elif how == 1:
@@ -387,8 +488,12 @@ def spell(rng, u: int, how: Optional[int] = None) -> bytes:
         r = "{" + s.upper() + "}"
     elif how == 6:
         r = "".join(c.upper() if rng.random() < 0.5 else c for c in s)
-    else:
+    elif how == 7:
         r = "URN:UUID:".lower() + s.upper().replace("-", "")
+    elif how == 8:
+        r = s.upper().replace("-", "")
+    else:
+        r = "".join(c.upper() if rng.random() < 0.5 else c for c in s.replace("-", ""))
     return r.encode()
 
 
@@ -447,10 +552,10 @@ def boundary_scripts(ctx: Ctx) -> List[List[Dict[str, Any]]]:
         ops.append(req(B + base, LIST_BODY))  # even: not admin
         out.append(ops)
     # every spelling: add, list, remove with another spelling, list
-    for how in range(8):
+    for how in range(N_SPELL):
         out.append([sA, req(A, add_body(spell(rng, B, how), kb, b"\x00")), req(A, LIST_BODY),
-                    req(A, remove_body(spell(rng, B, (how + 3) % 8))), req(A, LIST_BODY)])
-        out.append([setup(spell(rng, A, how), ka), req(A, LIST_BODY), req(A, add_body(spell(rng, A, (how + 1) % 8), kc, b"\x01")), req(A, LIST_BODY)])
+                    req(A, remove_body(spell(rng, B, (how + 3) % N_SPELL))), req(A, LIST_BODY)])
+        out.append([setup(spell(rng, A, how), ka), req(A, LIST_BODY), req(A, add_body(spell(rng, A, (how + 1) % N_SPELL), kc, b"\x01")), req(A, LIST_BODY)])
     # last admin removed while others remain; with a second admin; self removal
     users = [req(A, add_body(spell(rng, B, 1), kb, b"\x00")), req(A, add_body(spell(rng, C, 0), kc, b"\x00"))]
     out.append([sA] + users + [req(A, remove_body(spell(rng, A, 1))), req(A, LIST_BODY), req(B, LIST_BODY)])
@@ -484,17 +589,22 @@ def boundary_scripts(ctx: Ctx) -> List[List[Dict[str, Any]]]:
     return out
 
 
-def random_script(ctx: Ctx) -> List[Dict[str, Any]]:
+def random_script(ctx: Ctx, pool: Optional[List[int]] = None, shadow: Optional[Dict[int, int]] = None) -> List[Dict[str, Any]]:
+    """`pool` / `shadow` given: the history starts from a loaded state holding these controllers (uuid -> permission)."""
     rng = ctx.rng
-    pool = [rng.choice(EDGE_UUIDS) if rng.random() < 0.1 else rng.getrandbits(128) for _ in range(rng.choice([2, 3, 3, 4, 5]))]
     ops: List[Dict[str, Any]] = []
-    shadow: Dict[int, int] = {}  # generator's guess of uuid -> permission (only steers the choice of connections)
-    if rng.random() < 0.93:
-        ops.append(setup(spell(rng, pool[0]), key_of(rng)))
-        shadow[pool[0]] = 1
-    if rng.random() < 0.15:
-        ops.append(setup(spell(rng, pool[1]), key_of(rng)))
-        shadow[pool[1]] = 1
+    if pool is None:
+        pool = [rng.choice(EDGE_UUIDS) if rng.random() < 0.1 else rng.getrandbits(128) for _ in range(rng.choice([2, 3, 3, 4, 5]))]
+        shadow = {}  # generator's guess of uuid -> permission (only steers the choice of connections)
+        if rng.random() < 0.93:
+            ops.append(setup(spell(rng, pool[0]), key_of(rng)))
+            shadow[pool[0]] = 1
+        if rng.random() < 0.15:
+            ops.append(setup(spell(rng, pool[1]), key_of(rng)))
+            shadow[pool[1]] = 1
+    else:
+        shadow = dict(shadow or {})
+        pool = list(pool) + [rng.getrandbits(128)]
     for _ in range(rng.randrange(3, 14)):
         admins = [u for u, p in shadow.items() if p & 1]
         r = rng.random()
@@ -532,6 +642,8 @@ def random_script(ctx: Ctx) -> List[Dict[str, Any]]:
                 perms = bytes(rng.randrange(256) for _ in range(3))
             drop = rng.choice([refp.T_USER, refp.T_PUB, refp.T_PERM]) if rng.random() < 0.06 else None
             ops.append(req(cu, add_body(idb, key, perms, drop=drop), enc))
+            if rng.random() < 0.04:
+                ops[-1]["fault"] = True  # the state file cannot be written while this request is handled
             if served and not bad_id and drop is None and len(perms) == 1:
                 shadow[target] = perms[0]
         elif k < 0.62:
@@ -544,11 +656,15 @@ def random_script(ctx: Ctx) -> List[Dict[str, Any]]:
                 idb = rng.choice(BAD_IDS + ODD_IDS)
             drop = refp.T_USER if rng.random() < 0.04 else None
             ops.append(req(cu, remove_body(idb, drop=drop), enc))
+            if rng.random() < 0.04:
+                ops[-1]["fault"] = True
             if served and not bad_id and drop is None and target in shadow:
                 del shadow[target]
                 if not any(p & 1 for p in shadow.values()):
                     shadow.clear()
         elif k < 0.92:
+            if rng.random() < 0.12:
+                ops.append(dict(RESTART))
             ops.append(req(cu, LIST_BODY, enc))
         else:
             m = rng.randrange(5)
@@ -568,9 +684,85 @@ def random_script(ctx: Ctx) -> List[Dict[str, Any]]:
     return ops
 
 
+def faulty(op):
+    return {**op, "fault": True}
+
+
+RESTART = {"k": "restart"}
+
+
+def restart_scripts(ctx: Ctx):
+    """A restart (fresh driver loads the file the implementation wrote) in the middle of the administration,
+    for every identifier spelling family: the list afterwards must still show the registered bytes."""
+    rng = ctx.rng
+    out = []
+    for how in range(N_SPELL):
+        A, B = rng.getrandbits(128), rng.getrandbits(128)
+        out.append(([setup(spell(rng, A, how), key_of(rng)), req(A, add_body(spell(rng, B, how), key_of(rng), bytes([how % 2]))), RESTART,
+                     req(A, LIST_BODY), req(B, LIST_BODY), req(A, remove_body(spell(rng, B, (how + 1) % N_SPELL))), RESTART, req(A, LIST_BODY)], None))
+    return out
+
+
+def fault_scripts(ctx: Ctx):
+    """Requests handled while the state file cannot be written (OSError from the save)."""
+    rng = ctx.rng
+    A, B = rng.getrandbits(128), rng.getrandbits(128)
+    ka, kb = key_of(rng), key_of(rng)
+    sA = setup(spell(rng, A, 1), ka)
+    addB = req(A, add_body(spell(rng, B, 1), kb, b"\x00"))
+    out = [
+        [sA, faulty(addB), req(A, LIST_BODY), req(B, LIST_BODY)],
+        [sA, faulty(req(A, add_body(spell(rng, B, 1), kb, b"\x01"))), req(B, LIST_BODY), req(A, LIST_BODY)],
+        [sA, addB, faulty(req(A, remove_body(spell(rng, B, 1)))), req(A, LIST_BODY)],
+        [sA, addB, faulty(req(A, add_body(spell(rng, B, 0), ka, b"\x01"))), req(A, LIST_BODY), req(B, LIST_BODY)],
+        [sA, faulty(req(A, add_body(spell(rng, B, 1), kb, b""))), faulty(req(A, LIST_BODY)), faulty(req(B, add_body(spell(rng, B, 1), kb, b"\x01"))), req(A, LIST_BODY)],
+        [faulty(sA), req(A, LIST_BODY), addB, req(A, LIST_BODY)],
+        [sA, addB, faulty(req(A, remove_body(spell(rng, A, 1)))), req(B, LIST_BODY), req(A, LIST_BODY)],
+    ]
+    return [(ops, None) for ops in out]
+
+
+START_ABSENT = ([], ["client_properties"], ["client_properties", "client_uuid_to_bytes"], ["client_uuid_to_bytes"],
+                ["client_properties", "client_uuid_to_bytes", "accessories_hash"])
+
+
+def make_start(rng, n: int, absent, perms=None):
+    from props import c14 as _c14
+
+    return {"state": _c14.authored_state(rng, n, perms=perms), "absent": list(absent)}
+
+
+def loaded_start_scripts(ctx: Ctx):
+    """Histories that begin with a restart: the real driver loads a state file (current format and the formats
+    older releases wrote, 2..5 controllers), then the pairings are administered."""
+    rng = ctx.rng
+    out = []
+    for absent in START_ABSENT:
+        for n in (2, 3):
+            start = make_start(rng, n, absent, perms=[1, 1, 0, 3])
+            known = start_known(start)
+            ids = [(u, idb if idb is not None else spell(rng, u, 1)) for u, idb, _k, _p in known]
+            keys = {u: k for u, _i, k, _p in known}
+            (a, ida), (b, idb_) = ids[0], ids[1]
+            other = b if "client_properties" in absent else ids[0][0]
+            for p in (b"\x00", b"\x01", b"\x02"):
+                # an admin re-registers an imported controller with another permission byte; everybody asks for the list
+                out.append(([req(a, LIST_BODY), req(a, add_body(idb_, keys[b], p)), req(a, LIST_BODY), req(b, LIST_BODY), req(other, LIST_BODY),
+                             req(a, add_body(ida, keys[a], b"\x01")), req(a, LIST_BODY)], start))
+            out.append(([req(a, remove_body(idb_)), req(a, LIST_BODY), req(b, LIST_BODY), req(a, add_body(idb_, key_of(rng), b"\x00")), req(a, LIST_BODY)], start))
+            out.append(([req(a, add_body(spell(rng, rng.getrandbits(128)), key_of(rng), b"\x00")), req(a, remove_body(ida)), req(b, LIST_BODY), req(a, LIST_BODY)], start))
+    for _ in range(ctx.n(120, 2500)):
+        start = make_start(rng, rng.choice([2, 2, 3, 4, 5]), rng.choice(START_ABSENT), perms=[rng.choice([0, 1, 1, 3, 2, 255]) for _ in range(5)])
+        known = start_known(start)
+        out.append((random_script(ctx, pool=[u for u, *_ in known], shadow={u: p for u, _i, _k, p in known}), start))
+    return out
+
+
 def parse_table(ops) -> Dict[str, Optional[str]]:
     tbl: Dict[str, Optional[str]] = {}
     for op in ops:
+        if op["k"] == "restart":
+            continue
         if op["k"] == "setup":
             ids = [bytes.fromhex(op["id"])]
         else:
@@ -630,7 +822,7 @@ def run_real_sessions(ops: List[Dict[str, Any]], judge: bool = True):
 
         for i, op in enumerate(ops):
             before = real.snapshot()
-            calls0 = real.persist_calls
+            sig0 = real.file_sig()
             if op["k"] == "setup":
                 key = ctrl_pub(op["seed"])
                 try:
@@ -639,7 +831,7 @@ def run_real_sessions(ops: List[Dict[str, Any]], judge: bool = True):
                 except Exception:  # noqa: BLE001
                     code = 500
                 after = real.snapshot()
-                steps.append({"resp": {"code": code}, "state": after, "wrote": real.persist_calls > calls0})
+                steps.append({"resp": {"code": code}, "state": after, "wrote": real.file_sig() != sig0})
                 if judge and ref is not None and v.sig is None:
                     ref = judge_step(v, ref, i, {"k": "setup", "id": op["id"], "key": hx(key)}, before, after, code, b"")
             elif op["k"] == "verify":
@@ -664,7 +856,7 @@ def run_real_sessions(ops: List[Dict[str, Any]], judge: bool = True):
                 post, h = conn(op["c"])
                 code, body = post("/pairings", bytes.fromhex(op["body"]))
                 after = real.snapshot()
-                wrote = real.persist_calls > calls0
+                wrote = real.file_sig() != sig0
                 resp = {"code": 200, "body": hx(body), "pc": post.pairing_changed} if code == 200 else {"code": code}
                 steps.append({"resp": resp, "state": after, "wrote": wrote, "doc": real.file_doc() if wrote else None, "sess": sess(h)})
                 if judge and ref is not None and v.sig is None:
@@ -851,7 +1043,9 @@ def run_sessions(ctx: Ctx):
 def abstract_trace(ops, steps):
     tr = []
     for op, s in zip(ops, steps):
-        if op["k"] == "setup":
+        if op["k"] == "restart":
+            tr.append(["restart", s["restart"][:6], len(s.get("state", {}).get("paired", []))])
+        elif op["k"] == "setup":
             tr.append(["setup", s["resp"]["code"], len(s["state"]["paired"])])
         else:
             it = lenient_items(bytes.fromhex(op["body"]))
@@ -863,11 +1057,31 @@ def abstract_trace(ops, steps):
     return tr
 
 
-def model_lines(scripts, idents):
-    return [
-        {"layer": "pairstate", "op": "script", "ident": idn, "parse": parse_table(ops), "ops": ops}
-        for ops, idn in zip(scripts, idents)
-    ]
+def segments(ops, steps, ident, init):
+    """Cut an executed history at its restarts: [(ops, steps, ident, init)] with the state observed after each
+    load as the start of the next piece (the model is compared piecewise; the restart itself is C14's)."""
+    out, cur_ops, cur_steps = [], [], []
+    for op, s in zip(ops, steps):
+        if op["k"] == "restart":
+            out.append((cur_ops, cur_steps, ident, init))
+            if "state" not in s:
+                return [x for x in out if x[0]]
+            cur_ops, cur_steps, ident, init = [], [], s["ident"], s["state"]
+        else:
+            cur_ops.append(op)
+            cur_steps.append(s)
+    out.append((cur_ops, cur_steps, ident, init))
+    return [x for x in out if x[0]]
+
+
+def model_lines(scripts, idents, inits=None):
+    out = []
+    for k, (ops, idn) in enumerate(zip(scripts, idents)):
+        ln = {"layer": "pairstate", "op": "script", "ident": idn, "parse": parse_table(ops), "ops": ops}
+        if inits is not None and inits[k] is not None:
+            ln["init"] = inits[k]  # the state the real load produced (public State maps)
+        out.append(ln)
+    return out
 
 
 def canon_model_steps(ops, msteps):
@@ -876,26 +1090,34 @@ def canon_model_steps(ops, msteps):
         s = dict(s)
         if op["k"] == "setup":
             s["resp"] = {"code": s["resp"]["code"]}
+        if op.get("fault"):
+            s.pop("wrote", None), s.pop("doc", None)
         out.append(s)
     return out
 
 
-def minimise(ops, sig):
+def minimise(ops, sig, start=None):
     def still(cand):
         try:
-            return run_real(cand)[2].sig == sig
+            return run_real(cand, start=start)[2].sig == sig
         except Exception:  # noqa: BLE001
             return False
 
     return delta_min(ops, still)
 
 
-def record_failure(ctx: Ctx, ops, v: Verdict):
+def record_failure(ctx: Ctx, ops, v: Verdict, start=None):
     cut = ops[: v.at + 1]
-    small = minimise(cut, v.sig)
-    v2 = run_real(small)[2]
+    small = minimise(cut, v.sig, start)
+    v2 = run_real(small, start=start)[2]
     desc = v2.desc if v2.sig == v.sig else v.desc
-    ctx.fail(v.sig, f"{desc} [history of {len(small)} request(s)]", {"kind": "script", "ops": small, "signature": v.sig})
+    where = ""
+    payload = {"kind": "script", "ops": small, "signature": v.sig}
+    if start is not None:
+        payload["start"] = start
+        where = (f" after a restart from a state file without {start['absent']}" if start["absent"] else " after a restart from a state file") \
+            + f" holding {len(start['state']['paired'])} controllers"
+    ctx.fail(v.sig, f"{desc} [history of {len(small)} request(s){where}]", payload)
 
 
 def run(ctx: Ctx):
@@ -903,22 +1125,31 @@ def run(ctx: Ctx):
     st.rule = (
         "one case = one history (pair-setup completions + POST /pairings requests: add/remove/list/malformed; admin, "
         "non-admin, unverified and inconsistent connections; permission items of length 0..3, every permission byte; "
-        "8 identifier spellings, bad and odd identifiers; keys of 0..600 bytes). Non-trivial: at least one request is "
+        "10 identifier spellings, bad and odd identifiers; keys of 0..600 bytes; requests handled while the state-file write "
+        "raises OSError; histories that start from a state loaded by the real driver from a current / legacy state file). Non-trivial: at least one request is "
         "refused, answered with an error, or changes a State map. Distinct by the abstract trace (request type, connection "
         "class, outcome class, number of pairings / recorded ids after each step, permission item length)."
     )
-    scripts = boundary_scripts(ctx)
-    n_boundary = len(scripts)
-    for _ in range(ctx.n(1500, 20000)):
-        scripts.append(random_script(ctx))
+    cases = [(ops, None) for ops in boundary_scripts(ctx)] + fault_scripts(ctx) + restart_scripts(ctx)
+    n_boundary = len(cases)
+    for _ in range(ctx.n(1400, 18000)):
+        cases.append((random_script(ctx), None))
+    n_mem = len(cases)
+    cases += loaded_start_scripts(ctx)
+    scripts = [ops for ops, _ in cases]
 
-    idents, impl = [], []
-    for ops in scripts:
-        ident, steps, v, abstained = run_real(ops)
-        idents.append(ident)
-        impl.append(steps)
+    segs = []
+    impl_all = []
+    for ops, start in cases:
+        ident, steps, v, abstained, init = run_real(ops, start=start)
+        segs += segments(ops, steps, ident, init)
+        impl_all.append(steps)
+        if start is not None:
+            st.hit("outcome", "start/loaded-file-without:" + ("+".join(start["absent"]) or "nothing"))
+        if any(op.get("fault") for op in ops):
+            st.hit("outcome", "history-with-failing-state-file-write")
         if v.sig is not None:
-            record_failure(ctx, ops, v)
+            record_failure(ctx, ops, v, start)
             st.hit("outcome", "oracle:" + v.sig)
         if abstained:
             st.hit("outcome", "oracle-abstained")
@@ -926,15 +1157,21 @@ def run(ctx: Ctx):
         nontriv = any(t[0] == "setup" or t[2] != "ok" or t[0] in (3, 4) for t in tr)
         st.case(tr, nontriv)
         for t in tr:
+            if t[0] == "restart":
+                st.hit("op", "restart")
+                st.hit("outcome", "restart/" + t[1])
+                continue
             st.hit("op", "setup" if t[0] == "setup" else {3: "add", 4: "remove", 5: "list"}.get(t[0], "malformed"))
             if t[0] == "setup":
                 st.hit("outcome", f"setup-{t[1]}")
             else:
                 st.hit("outcome", f"{ {3: 'add', 4: 'remove', 5: 'list'}.get(t[0], 'malformed') }/{t[1]}/{t[2]}".replace(" ", ""))
-    st.notes.append(f"{n_boundary} deterministic boundary histories first, then {len(scripts) - n_boundary} random ones")
+    st.notes.append(f"{n_boundary} deterministic boundary histories first (incl. requests handled while the state file cannot be written), "
+                    f"then {n_mem - n_boundary} random ones, then {len(cases) - n_mem} histories that start with a restart from a "
+                    "harness-authored state file (current and older formats) loaded by the real driver")
 
-    model = run_model_parallel("C06", model_lines(scripts, idents))
-    for ops, m, steps in zip(scripts, model, impl):
+    model = run_model_parallel("C06", model_lines([x[0] for x in segs], [x[2] for x in segs], [x[3] for x in segs]))
+    for (ops, steps, _idn, _ini), m in zip(segs, model):
         st.traces_validated += 1
         if "steps" not in m:
             ctx.disagree("pairstate", {"ops": ops[:6]}, m, None)
@@ -942,12 +1179,13 @@ def run(ctx: Ctx):
         ms = canon_model_steps(ops, m["steps"])
         if ms != steps:
             j = next((k for k, (a, b) in enumerate(zip(ms, steps)) if a != b), min(len(ms), len(steps)))
-            field = next((f for f in ("resp", "state", "wrote", "doc") if j < len(ms) and j < len(steps) and ms[j][f] != steps[j][f]), "?")
-            ctx.disagree(f"pairstate/{field}", {"ops": ops[: j + 1], "step": j}, ms[j][field] if j < len(ms) else None, steps[j][field] if j < len(steps) else None)
+            field = next((f for f in ("resp", "state", "wrote", "doc") if j < len(ms) and j < len(steps) and ms[j].get(f) != steps[j].get(f)), "?")
+            ctx.disagree(f"pairstate/{field}", {"ops": ops[: j + 1], "step": j}, ms[j].get(field) if j < len(ms) else None, steps[j].get(field) if j < len(steps) else None)
     run_sessions(ctx)
-    for k in (0, n_boundary - 1, len(scripts) - 1):
-        st.sample({"ops": scripts[k][:4], "impl_steps": [{"resp": s["resp"], "pairings": len(s["state"]["paired"])} for s in impl[k][:4]],
-                   "model_agrees": "steps" in model[k] and canon_model_steps(scripts[k], model[k]["steps"]) == impl[k]})
+    for k in (0, min(n_boundary, len(segs)) - 1, len(segs) - 1):
+        st.sample({"ops": segs[k][0][:4], "impl_steps": [{"resp": s["resp"], "pairings": len(s["state"]["paired"])} for s in segs[k][1][:4]],
+                   "starts_from_loaded_state": segs[k][3] is not None,
+                   "model_agrees": "steps" in model[k] and canon_model_steps(segs[k][0], model[k]["steps"]) == segs[k][1]})
 
 
 def search(ctx: Ctx):
@@ -955,10 +1193,10 @@ def search(ctx: Ctx):
     saved = ctx.tier
     ctx.tier = "thorough"
     try:
-        for ops in boundary_scripts(ctx):
-            v = run_real(ops)[2]
+        for ops, start in [(o, None) for o in boundary_scripts(ctx)] + fault_scripts(ctx) + restart_scripts(ctx) + loaded_start_scripts(ctx):
+            v = run_real(ops, start=start)[2]
             if v.sig is not None:
-                record_failure(ctx, ops, v)
+                record_failure(ctx, ops, v, start)
         for _ in range(6000):
             ops = random_script(ctx)
             v = run_real(ops)[2]
@@ -998,9 +1236,17 @@ def replay(ctx: Ctx, r):
         print(json.dumps(r, indent=1)[:3000])
         return 1
     ops = r["ops"]
-    ident, steps, v, _ = run_real(ops)
+    start = r.get("start")
+    ident, steps, v, _, _init = run_real(ops, start=start)
+    if start is not None:
+        print(f"  restart: the driver loads a harness-authored state file without {start['absent'] or 'no member'} holding {len(start['state']['paired'])} controllers")
     for op, s in zip(ops, steps):
+        if op["k"] == "restart":
+            print(f"  restart: a fresh driver loads the saved state file -> {s['restart']}")
+            continue
         what = "pair-setup" if op["k"] == "setup" else f"POST /pairings enc={op['enc']} cu={'set' if op['cu'] else None} body={op['body'][:60]}"
+        if op.get("fault"):
+            what += " [state file cannot be written]"
         print(f"  {what} -> {s['resp']} ; paired={len(s['state']['paired'])} props={len(s['state']['props'])} u2b={len(s['state']['u2b'])}")
     if v.sig:
         print("FAILS:", v.sig, v.desc, f"(at request {v.at})")
